@@ -85,10 +85,10 @@ Proof.
   destruct (sig_scan rs q false) as [[wk kp] ww]. simpl in *. destruct Hr as [->|Hr]; auto.
 Qed.
 
-Lemma sel_cover rs q n (bc : bool) old0 wk kp allr todo first (set0 : Z) :
+Lemma sel_cover rs q n (bc : bool) old0 wk kp allr todo first (set0 clr0 : Z) (envq0 : bool) :
   NoDup q -> (forall r, In r q -> (r < n)%nat) ->
   (if bc then sel_broadcast rs q else sel_signal rs q) = (wk, kp, allr) ->
-  let k := mk_kl bc old0 wk allr todo first set0 q (filter (fun p => is_rdr (rs p)) q) wk [] [] [] in
+  let k := mk_kl bc old0 wk allr todo first set0 clr0 q (filter (fun p => is_rdr (rs p)) q) wk [] [] [] envq0 in
   cover n k /\ stageA k.
 Proof.
   intros Hnd Hb Hsel. cbv zeta.
@@ -104,7 +104,7 @@ Proof.
     pose proof (sel_signal_readers rs f q' r (proj2 Hf) (proj1 Hr) (proj2 Hr)) as H. now rewrite Hsel in H.
 Qed.
 
-Lemma acct_xfer o k stay moved z : stageA k -> part (k_wake k) moved stay -> acct o (kl_set_xfer k stay moved z) None.
+Lemma acct_xfer o k stay moved z clr envq : stageA k -> part (k_wake k) moved stay -> acct o (kl_set_xfer k stay moved z clr envq) None.
 Proof.
   intros (A & B & C & D & E) (P1 & P2). unfold acct; simpl. rewrite B, C, D. simpl. rewrite A in *.
   destruct (P2 E) as (N1 & N2 & N3). split; [now apply NoDup_app2|]. split; [|reflexivity].
@@ -293,7 +293,7 @@ Proof.
   intros Hlt Hpc Hmu. unfold pcof in *. cbv zeta. unfold step_core. rewrite Hpc. unfold st_VCas1, wake_waiters_cas1_old.
   rewrite Hmu, Z.eqb_refl.
   match goal with |- context [xfer ?rs ?fca ?wk] => pose proof (xfer_part rs fca wk) as Hp; destruct (xfer rs fca wk) as [[moved stay] set_on] end.
-  simpl in Hp. simpl fst. pc_nf. exists (kl_set_xfer k stay moved set_on), moved. split; [reflexivity|]. split; [reflexivity|].
+  simpl in Hp. simpl fst. pc_nf. eexists (kl_set_xfer k stay moved set_on _ _), moved. split; [reflexivity|]. split; [reflexivity|].
   split; [reflexivity|]. split; [|exact (proj1 Hp)].
   intros r Hr. unfold lc. simpl recs. unfold clear_cv_mu. rewrite map_recs_in by (try reflexivity; assumption). simpl. auto.
 Qed.
